@@ -68,9 +68,14 @@ def runs_space(n):
 
 def spaces(tier):
     out = []
+    from mc.lib import api
+    m_ok = api.available(classify_mod, 'get_mystery_jump_mask',
+                         ('is_jump', 'is_raining'))
+    r_ok = api.available(classify_mod, 'get_true_interval_masks',
+                         ('boolean_vector',))
     if tier == 'quick':
-        out += [mystery_space(n) for n in range(0, 9)]
-        out += [runs_space(n) for n in range(0, 15)]
+        out += [mystery_space(n) for n in range(0, 9) if m_ok]
+        out += [runs_space(n) for n in range(0, 15) if r_ok]
         for n in (2, 3, 4):
             for combo in cs.COMBOS[:4]:
                 out.append(cs.db_space(n, combo, 2))
@@ -86,8 +91,8 @@ def spaces(tier):
         out.append(cs.db_space(6, cs.COMBOS[3], 0))
         for combo in cs.EXTREME:
             out.append(cs.db_space(5, combo, 1))
-        out += [mystery_space(n) for n in range(0, 11)]
-        out += [runs_space(n) for n in range(0, 19)]
+        out += [mystery_space(n) for n in range(0, 11) if m_ok]
+        out += [runs_space(n) for n in range(0, 19) if r_ok]
         for n in (2, 3, 4, 5):
             for combo in cs.COMBOS:
                 out.append(cs.db_space(n, combo, 3))
